@@ -82,7 +82,7 @@ type UGeo struct {
 }
 type UMid struct {
 	Port uint16
-	Geo  UGeo `struct:",inline"`
+	Geo  UGeo   `struct:",inline"`
 	Tail string `struct:"tail"`
 }
 type US4 struct {
